@@ -227,6 +227,34 @@ LEAN_KEYWORDS = {
     "calc", "nomatch", "nofun", "decide", "Int", "Nat", "Bool", "Option", "R",
 }
 
+# ---- fourth extension [dated extension]: the dated-range helpers of filter/date_filter.rs (DESIGN §8.9) ------------
+# All in chrono mode.  New constructs (each marked `[dated extension]` where it is implemented):
+#  * enums with STRUCT variants (`enum Date { Fixed { year: Option<u16>, month: Month, day: u8 }, Easter { year: .. } }`)
+#    as payload enums whose constructor arguments carry the field names (DATED_PENUM_FIELDS, filled by `find_penum`);
+#    `match` patterns `E::V { f, g: None, h: Some(x), .. }`, or-patterns of these binding the same names at the same
+#    types, a match guard `if c` (pure `c`): `| pat => if c then body else (match v with <the remaining arms>)`
+#    -- Rust's first-match semantics; the names bound by a guarded pattern must not hide outer names;
+#  * a parameter `impl FnOnce(A, ..) -> B`: a Lean function parameter `A → .. → R B`, applied where the code calls it;
+#  * `OPT.into_iter().chain((LO..HI).rev().filter_map(|x| BODY)).next()` (exactly this shape): `firstOrRevFindMapM`
+#    of OH/Model/RustDated.lean; the closure may read the (immutable) variables in scope, `?` leaves the closure;
+#  * `opt.map(Into::into)` (value-preserving by the type check), `x.saturating_neg()` on a signed type,
+#    `enum_value.into()` towards an integer type when the macro DATED_ENUM_INTO generates `impl From<Enum> for T
+#    { fn from(val: Enum) -> Self { val as _ } }` (shape checked literally) and is invoked with `T`;
+#  * `ALIAS::f(..)` / `f(..)` of a translated free function of another file (DATED_MODULE_OF: the module the alias /
+#    the `use` has to name); the call of a NON-chrono translated function whose result is the argument tuple of a
+#    library call of CHRONO_CALLS (`easter`): the chrono meaning of that call applied to the tuple.
+TARGETS += [
+    (F_DF, None, None, ["valid_ymd_before", "valid_ymd_after", "year_before_offset", "date_year", "date_on_year"]),
+]
+CHRONO_FNS |= {(None, "valid_ymd_before"), (None, "valid_ymd_after"), (None, "year_before_offset"), (None, "date_year"),
+               (None, "date_on_year")}
+PENUMS += [(F_DAY, "Date")]
+DATED_PENUM_FIELDS = {}  # (enum, variant) -> field names, for struct variants (filled by `find_penum`)
+DATED_MODULE_OF = {F_DAY: "opening_hours_syntax::rules::day", F_DATES: "crate::utils::dates"}
+DATED_ENUM_INTO = {"Month": (F_DAY, "impl_convert_for_month")}
+DATED_ENUM_INTO_OK = {}  # (enum, integer type) -> bool, filled by `translate` (needs the tokens)
+# ---- end of the tables of the fourth extension ----------------------------------------------------------------------
+
 
 class Fail(Exception):
     pass
@@ -465,6 +493,8 @@ def show(t):
         return f"VecDeque<{show(t[1])}>"
     if t[0] == "extval":
         return "NaiveDate [the arguments of " + t[1] + "]"
+    if t[0] == "fnonce":  # [dated extension]
+        return "impl FnOnce(" + ", ".join(show(x) for x in t[2:]) + ") -> " + show(t[1])
     return str(t)
 
 
@@ -638,6 +668,18 @@ class Parser:
         if self.modelled and name == "impl" and self.peek().text in IMPL_TRAIT_AS:
             self.i += 1
             return T("ext", IMPL_TRAIT_AS[self.t[self.i - 1].text])
+        if self.modelled and name == "impl" and self.peek().text == "FnOnce" and self.peek(1).text == "(":
+            # [dated extension] `impl FnOnce(A, ..) -> B`: a function parameter, applied where the code calls it
+            self.i += 1
+            self.eat("(")
+            ps = []
+            while not self.at(")"):
+                ps.append(self.type_())
+                if not self.at(")"):
+                    self.eat(",")
+            self.eat(")")
+            self.eat("->")
+            return T("fnonce", self.type_(), *ps)
         if name == "_" and getattr(self, "infer_ok", False):
             return TVar(where=self.where(tk))  # `as _` / `Result<T, _>`: left to the inference
         if name in self.penums:
@@ -1271,7 +1313,13 @@ class Parser:
                 return Node("self", tk.line)
             return Node("var", tk.line, name=name)
         if len(path) > 1 and path[0] in self.aliases:
+            if len(path) == 2 and self.at("(") and self.modelled and path[1] not in ("from",):
+                # [dated extension] `ALIAS::f(..)`: a free function of the aliased module (checked by the inference)
+                a = self.args()
+                return Node("call", tk.line, path=path[1:], args=a, alias=path[0])
             path = path[1:]  # `ds::Weekday::Mon`: the alias was checked by the caller
+        if path == ["Into", "into"] and not self.at("(") and self.modelled:
+            return Node("intofn", tk.line)  # [dated extension] only as the argument of `Option::map`
         if not self.at("(") and self.modelled and "::".join(path) in CHRONO_CONSTS:
             return Node("chronoconst", tk.line, path="::".join(path))
         if self.at("(") and len(path) == 2 and path[0] in self.penums:
@@ -1286,6 +1334,39 @@ class Parser:
             fail(self.where(tk), f"path `{'::'.join(path)}` (constant) is outside the translated subset")
         a = self.args()
         return Node("call", tk.line, path=path, args=a)
+
+    def dated_svariant_fields(self, enum, variant, line):
+        """[dated extension] `{ f, g: None, h: Some(x), .. }` after `Enum::Variant` in a pattern"""
+        self.eat("{")
+        fields, rest = [], False
+        while not self.at("}"):
+            if self.at(".."):
+                self.i += 1
+                rest = True
+                if not self.at("}"):
+                    fail(self.where(), "`..` has to end the pattern")
+                break
+            ftk = self.peek()
+            fn = self.ident()
+            if not re.fullmatch(r"[a-z_][a-z0-9_]*", fn) or re.fullmatch(r"(tmp|ext)\d+", fn):
+                fail(self.where(ftk), f"field pattern `{fn}`")
+            sub = ("bind", fn)
+            if self.at(":"):
+                self.i += 1
+                if self.at("None"):
+                    self.i += 1
+                    sub = ("none",)
+                elif self.at("Some") and self.peek(1).text == "(" and self.peek(2).kind == "id" and self.peek(3).text == ")" \
+                        and re.fullmatch(r"[a-z_][a-z0-9_]*", self.peek(2).text) and not re.fullmatch(r"(tmp|ext)\d+", self.peek(2).text):
+                    sub = ("some", self.peek(2).text)
+                    self.i += 4
+                else:
+                    fail(self.where(), "only `field`, `field: None`, `field: Some(name)` are translated inside a struct-variant pattern")
+            fields.append((fn, sub))
+            if not self.at("}"):
+                self.eat(",")
+        self.eat("}")
+        return Node("svariant", line, enum=enum, name=variant, fields=fields, rest=rest)
 
     def match_(self, nostruct):
         """`match e { PAT => expr, .. }` with PAT an integer literal, `Self::Variant` / `Enum::Variant`, or `_` (last)"""
@@ -1309,6 +1390,27 @@ class Parser:
                     path = path[1:]
                 if len(path) == 1 and path[0] not in ("Some", "None", "Ok", "Err") and re.fullmatch(r"[a-z_][a-z0-9_]*", path[0]) and not self.at("("):
                     pat = Node("bindall", ptk.line, name=path[0])  # a final arm that binds the value
+                elif len(path) == 2 and path[0] in self.penums and self.at("{"):
+                    # [dated extension] a struct-variant pattern, or-patterns of these, a match guard
+                    pat = self.dated_svariant_fields(path[0], path[1], ptk.line)
+                    alts = [pat]
+                    while self.at("|"):
+                        self.i += 1
+                        atk = self.peek()
+                        apath = [self.ident()]
+                        while self.at("::"):
+                            self.i += 1
+                            apath.append(self.ident())
+                        if len(apath) > 1 and apath[0] in self.aliases:
+                            apath = apath[1:]
+                        if len(apath) != 2 or apath[0] not in self.penums or not self.at("{"):
+                            fail(self.where(atk), "this alternative of an or-pattern is outside the translated subset")
+                        alts.append(self.dated_svariant_fields(apath[0], apath[1], atk.line))
+                    if len(alts) > 1:
+                        pat = Node("orpat", ptk.line, alts=alts, enum=alts[0].enum)
+                    if self.at("if"):
+                        self.i += 1
+                        pat.guard = self.expr(nostruct=True)
                 elif len(path) == 2 and path[0] in self.penums:
                     binds = []
                     if self.at("("):
@@ -1485,6 +1587,25 @@ def find_penum(toks, fname, name, structs, enums):
                         tys.append(ft)
                         if tp.i < close:
                             tp.eat(",")
+                    j = close + 1
+                elif toks[j].text == "{":
+                    # [dated extension] a struct variant `V { f: T, .. }`: constructor arguments named after the fields
+                    close = matching(toks, j)
+                    tp = Parser(toks, fname, set(structs), uses=set(STD_USES), enums=set(enums), modelled=True)
+                    tp.i = j + 1
+                    fnames = []
+                    while tp.i < close:
+                        fnames.append(tp.ident())
+                        tp.eat(":")
+                        ft = tp.type_()
+                        if ft[0] not in ("int", "ext", "bool", "enum") and not (ft[0] == "opt" and ft[1][0] == "int"):
+                            fail(f"{fname}:{v.line}", f"enum {name}: the field {fnames[-1]} of {v.text} is outside the translated subset")
+                        tys.append(ft)
+                        if tp.i < close:
+                            tp.eat(",")
+                    if len(set(fnames)) != len(fnames) or not fnames:
+                        fail(f"{fname}:{v.line}", f"enum {name}: fields of {v.text}")
+                    DATED_PENUM_FIELDS[(name, v.text)] = fnames
                     j = close + 1
                 elif toks[j].text in ("{", "="):
                     fail(f"{fname}:{v.line}", f"enum {name}: variant {v.text} has named fields / a discriminant (outside the translated subset)")
@@ -2461,6 +2582,22 @@ class Infer:
                         aenv[bn] = bt
                         aenv[("mut", bn)] = False
                         aenv[("id", bn)] = object()
+                elif pat.kind in ("svariant", "orpat"):
+                    # [dated extension] struct-variant patterns; the alternatives of an or-pattern bind the same names at
+                    # the same types; a guard sees the bindings and has to be a `bool`
+                    unify(T("penum", pat.enum), strip_ref(ts), self.w(pat))
+                    binds = self.dated_pattern_binds(pat)
+                    aenv = dict(env)
+                    if dup or getattr(pat, "guard", None) is not None:
+                        self.no_shadow([bn for bn, _ in binds], env, pat)
+                    for bn, bt in binds:
+                        aenv[bn] = bt
+                        aenv[("mut", bn)] = False
+                        aenv[("id", bn)] = object()
+                    if getattr(pat, "guard", None) is not None:
+                        if contains_return(pat.guard):
+                            fail(self.w(pat), "`?` / `return` inside a match guard")
+                        unify(self.expr(pat.guard, aenv), BOOL, self.w(pat.guard))
                 elif pat.kind == "bindall":
                     aenv = dict(env)
                     if dup:
@@ -2481,6 +2618,14 @@ class Infer:
                 tt = strip_ref(tt)
                 if isinstance(tt, TVar) or tt[0] not in ("int", "enum", "penum"):
                     fail(w, f"`match` on {show(tt)} is outside the translated subset")
+                if tt[0] == "penum" and any(p.kind in ("svariant", "orpat") for p in pats):
+                    # [dated extension] coverage and redundancy are left to Lean (both are errors there, as in Rust);
+                    # the scrutinee is matched again after a failed guard, so it has to be a plain variable
+                    if any(p.kind not in ("svariant", "orpat", "wild") for p in pats):
+                        fail(w, "a pattern of another kind next to struct-variant patterns")
+                    if strip_paren(e.scrut).kind != "var":
+                        fail(w, "a `match` with struct-variant patterns on something else than a variable is outside the translated subset")
+                    return
                 if tt[0] == "penum":
                     names = [p.name for p in pats if p.kind == "pvariant"]
                     if len(set(names)) != len(names) or any(p.kind not in ("pvariant", "wild") for p in pats):
@@ -2545,6 +2690,18 @@ class Infer:
                     unify(self.expr(a, env), self.chrono_type(p), self.w(a))
                 e.chrono = lean
                 return self.chrono_type(rty)
+            if len(e.path) == 1 and e.path[0] in env and isinstance(prune(env[e.path[0]]), tuple) and prune(env[e.path[0]])[0] == "fnonce" \
+                    and getattr(e, "alias", None) is None:
+                # [dated extension] the call of a parameter `impl FnOnce(..) -> ..`
+                ft = prune(env[e.path[0]])
+                if len(ft) - 2 != len(e.args):
+                    fail(w, f"{path}: {len(ft) - 2} arguments expected")
+                if getattr(self, "in_closure", 0):
+                    fail(w, "the call of an `impl FnOnce` parameter inside a closure is outside the translated subset")
+                for a, pt in zip(e.args, ft[2:]):
+                    unify(self.expr(a, env), pt, self.w(a))
+                e.fnparam = e.path[0]
+                return ft[1]
             if len(e.path) == 1 and e.path[0] in env and isinstance(env[e.path[0]], tuple) and env[e.path[0]][0] == "closure":
                 c = env[e.path[0]][1]
                 if len(c.params) != len(e.args):
@@ -2610,8 +2767,10 @@ class Infer:
             elif len(e.path) == 1:
                 key = (None, e.path[0])
                 if key in self.fns and self.fns[key].fname != self.fi.fname and \
-                        (MODULE_OF.get(self.fns[key].fname), e.path[0]) not in self.fi.imports:
+                        (MODULE_OF.get(self.fns[key].fname), e.path[0]) not in self.fi.imports and not self.dated_import_ok(e, self.fns[key]):
                     fail(w, f"`{path}` is read as the translated function of {self.fns[key].fname}, but the file does not import it from there")
+                if key in self.fns and getattr(e, "alias", None) is not None and not self.dated_import_ok(e, self.fns[key]):
+                    fail(w, f"`{e.alias}::{path}`: the translated function of that name is not the one of the module `{e.alias}` stands for")  # [dated extension]
             else:
                 key = None
             if key not in self.fns:
@@ -2619,11 +2778,36 @@ class Infer:
             callee = self.fns[key]
             if callee.node.has_self:
                 fail(w, f"`{path}` takes self: call it as a method")
-            return self.call(e, callee, e.args, env)
+            rt_ = self.call(e, callee, e.args, env)
+            if self.fi.modelled and not callee.modelled and isinstance(prune(rt_), tuple) and prune(rt_)[0] == "externret" \
+                    and prune(rt_)[1] in CHRONO_CALLS:
+                # [dated extension] a translated function that is NOT in chrono mode returns the ARGUMENTS of the library
+                # call that ends it (`easter`: those of `NaiveDate::from_ymd_opt`); here the call has its chrono meaning
+                e.extern_to_chrono = CHRONO_CALLS[prune(rt_)[1]][2]
+                e.extern_arity = len(CHRONO_CALLS[prune(rt_)[1]][0])
+                return self.chrono_type(CHRONO_CALLS[prune(rt_)[1]][1])
+            return rt_
         if k == "method":
             name = e.name
+            if name == "next" and self.fi.modelled:
+                ch = self.dated_first_of_chain(e, env)  # [dated extension]
+                if ch is not None:
+                    return ch
             rt = strip_ref(self.expr(e.e, env))  # auto-deref of the receiver
             rp = rt
+            if name == "map" and not isinstance(rp, TVar) and rp[0] == "opt" and len(e.args) == 1 and e.args[0].kind == "intofn":
+                # [dated extension] `opt.map(Into::into)`: value-preserving by the type check
+                tv = TVar(where=w)
+                self.lossless(rp[1], tv, e)
+                e.optmap_into = True
+                return T("opt", tv)
+            if name == "saturating_neg":
+                # [dated extension]
+                self.noargs(e)
+                nm = self.int_of(rt, e, name)
+                if nm is None or not nm.startswith("i"):
+                    fail(w, "saturating_neg is only defined on signed types")
+                return rt
             it = self.iter_method(e, rp, env)  # [iteration extension]
             if it is not None:
                 return it
@@ -3099,6 +3283,13 @@ class Infer:
             if isinstance(s, TVar) and s.lit:
                 unify(s, tint("i32"), self.w(node))
                 s = prune(s)
+            if not isinstance(s, TVar) and s[0] == "enum" and d[0] == "int" and self.fi.modelled and node.kind == "method":
+                # [dated extension] `impl From<Enum> for T { fn from(val: Enum) -> Self { val as _ } }` generated by the
+                # macro of DATED_ENUM_INTO (shape checked literally by `translate`): the discriminant, cast to `T`
+                if not DATED_ENUM_INTO_OK.get((s[1], d[1])):
+                    fail(self.w(node), f"conversion {show(s)} -> {show(d)}: no macro-generated `impl From<{s[1]}> for {d[1]}` of the expected shape")
+                node.into_from_enum = (s[1], d[1])
+                return
             if isinstance(s, TVar) or s[0] != "int" or d[0] != "int":
                 fail(self.w(node), f"conversion {show(s)} -> {show(d)} is outside the translated subset")
             (slo, shi), (dlo, dhi) = INT_TYPES[s[1]], INT_TYPES[d[1]]
@@ -3107,6 +3298,84 @@ class Infer:
             if not (dlo <= slo and shi <= dhi):
                 fail(self.w(node), f"no `From<{s[1]}> for {d[1]}` in the standard library (not value-preserving)")
         self.deferred.append(chk)
+
+    # [dated extension] ---------------------------------------------------------------------------
+    def dated_pattern_binds(self, pat):
+        """[(name, type)] bound by a struct-variant pattern / an or-pattern of them (the same in every alternative)"""
+        if pat.kind == "orpat":
+            all_ = [self.dated_pattern_binds(a) for a in pat.alts]
+            if any(a.enum != pat.enum for a in pat.alts):
+                fail(self.w(pat), "an or-pattern over two enums")
+            for b in all_[1:]:
+                if sorted(n for n, _ in b) != sorted(n for n, _ in all_[0]):
+                    fail(self.w(pat), "the alternatives of an or-pattern do not bind the same names")
+                for n, t in b:
+                    if prune(dict(all_[0])[n]) != prune(t):
+                        fail(self.w(pat), f"the alternatives of an or-pattern bind `{n}` at different types")
+            return all_[0]
+        decl = dict(self.fi.penums.get(pat.enum, []))
+        fnames = DATED_PENUM_FIELDS.get((pat.enum, pat.name))
+        if pat.name not in decl or fnames is None:
+            fail(self.w(pat), f"`{pat.enum}::{pat.name}` is not a struct variant of a translated enum")
+        tys = dict(zip(fnames, decl[pat.name]))
+        seen, out = set(), []
+        for fn, sub in pat.fields:
+            if fn not in tys or fn in seen:
+                fail(self.w(pat), f"`{pat.enum}::{pat.name}` has no field `{fn}` / the field is matched twice")
+            seen.add(fn)
+            ft = tys[fn]
+            if sub[0] == "bind":
+                out.append((fn, ft))
+            elif ft[0] != "opt":
+                fail(self.w(pat), f"`{fn}: None` / `{fn}: Some(..)` on a field of type {show(ft)}")
+            elif sub[0] == "some":
+                out.append((sub[1], ft[1]))
+        if not pat.rest and seen != set(fnames):
+            fail(self.w(pat), f"the pattern of `{pat.enum}::{pat.name}` does not mention every field (and has no `..`)")
+        if len({n for n, _ in out}) != len(out):
+            fail(self.w(pat), "a name is bound twice in this pattern")
+        return out
+
+    def dated_first_of_chain(self, e, env):
+        """`OPT.into_iter().chain((LO..HI).rev().filter_map(|x| BODY)).next()`, exactly this shape; None if the
+        receiver of `.next()` is not a `.chain(..)` at all"""
+        w = self.w(e)
+        c = strip_paren(e.e)
+        if e.args or c.kind != "method" or c.name != "chain":
+            return None
+        src = strip_paren(c.e)
+        if len(c.args) != 1 or src.kind != "method" or src.name != "into_iter" or src.args:
+            fail(w, "only `OPTION.into_iter().chain((a..b).rev().filter_map(|x| ..)).next()` is translated")
+        fm = strip_paren(c.args[0])
+        rv = strip_paren(fm.e) if fm.kind == "method" else None
+        rg = strip_paren(rv.e) if rv is not None and rv.kind == "method" else None
+        if fm.kind != "method" or fm.name != "filter_map" or len(fm.args) != 1 or rv.kind != "method" or rv.name != "rev" or rv.args \
+                or rg.kind != "range" or rg.incl or strip_paren(fm.args[0]).kind != "closure":
+            fail(w, "only `OPTION.into_iter().chain((a..b).rev().filter_map(|x| ..)).next()` is translated")
+        to = prune(self.expr(src.e, env))
+        if isinstance(to, TVar) or to[0] != "opt":
+            fail(w, f"`.into_iter().chain(..).next()` on {show(to)} (only on an Option)")
+        lt = self.expr(rg.l, env)
+        unify(lt, self.expr(rg.r, env), self.w(rg))
+        self.need_int(lt, rg, "`(a..b).rev()`")
+        nholes = len(self.fi.holes)
+        self.fn_arg(strip_paren(fm.args[0]), lt, T("opt", to[1]), env)
+        if len(self.fi.holes) != nholes:
+            fail(w, "an untranslated call (HOLES) inside a closure that runs once per element is outside the translated subset")
+        e.dated_chain = (src.e, rg, strip_paren(fm.args[0]))
+        return T("opt", to[1])
+
+    def dated_import_ok(self, e, callee):
+        """a free function of another file: `ALIAS::f(..)` with ALIAS the `use .. as ALIAS` of that file's module, or
+        `f(..)` imported by name from that file's module"""
+        mod = DATED_MODULE_OF.get(callee.fname)
+        if mod is None or not self.fi.modelled:
+            return False
+        alias = getattr(e, "alias", None)
+        if alias is not None:
+            return ALIASES.get(self.fi.fname, {}).get(alias) == mod
+        return (mod, e.path[0]) in self.fi.imports
+    # ---------------------------------------------------------------------------------------------
 
 
 # ------------------------------------------------------------------------------------------------
@@ -3154,6 +3423,9 @@ def lty(t):
         return f"Vector {inner if ' ' not in inner else '(' + inner + ')'} {t[2]}"
     if t[0] == "externret":
         return " × ".join("Int" for _ in EXTERNS[t[1]][0])
+    if t[0] == "fnonce":  # [dated extension] `impl FnOnce(A, ..) -> B`: it may panic, hence `R B`
+        parts = [lty(x) for x in t[2:]] + ["R " + (lty(t[1]) if " " not in lty(t[1]) else "(" + lty(t[1]) + ")")]
+        return " → ".join(p_ if " " not in p_ or p_.startswith("R ") else f"({p_})" for p_ in parts)
     raise AssertionError(t)
 
 
@@ -3402,6 +3674,16 @@ class Gen:
             if a is None or b is None:
                 return None
             return f"Option.bind {atom(a)} (fun {lname(e.args[0].params[0][0])} => {b})"
+        if k == "method" and getattr(e, "optmap_into", False):  # [dated extension] value-preserving
+            return self.pure(e.e)
+        if k == "method" and e.name == "saturating_neg":  # [dated extension]
+            a = self.pure(e.e)
+            return None if a is None else f"saturatingNeg {self.tyname(e.ty)} {atom(a)}"
+        if k == "method" and e.name == "into" and getattr(e, "into_from_enum", None):  # [dated extension] `val as _`
+            a = self.pure(e.e)
+            return None if a is None else f"wrap .{e.into_from_enum[1]} ({e.into_from_enum[0]}.discr {atom(a)})"
+        if k == "method" and getattr(e, "dated_chain", None):
+            return None
         if k == "self":
             return "self"
         if k in ("paren", "ref"):
@@ -3564,6 +3846,26 @@ class Gen:
             return self.cg(e.e, k, depth)
         if kind == "unreachable":
             return f"{I}.error (.panic \"internal error: entered unreachable code\")"
+        if kind == "method" and getattr(e, "optmap_into", False):  # [dated extension]
+            return self.cg(e.e, k, depth)
+        if kind == "method" and e.name == "saturating_neg":  # [dated extension]
+            return self.cg(e.e, lambda a: k(f"saturatingNeg {self.tyname(e.ty)} {atom(a)}"), depth)
+        if kind == "method" and e.name == "into" and getattr(e, "into_from_enum", None):  # [dated extension]
+            return self.cg(e.e, lambda a: k(f"wrap .{e.into_from_enum[1]} ({e.into_from_enum[0]}.discr {atom(a)})"), depth)
+        if kind == "call" and getattr(e, "fnparam", None):
+            # [dated extension] the call of an `impl FnOnce` parameter: it may have any outcome
+            def kf(ts):
+                v = self.fresh()
+                return f"{I}bnd ({' '.join([lname(e.fnparam)] + [int_atom(t) for t in ts])}) fun {v} =>\n" + k(v)
+            return self.cg_args(e.args, kf, depth)
+        if kind == "call" and getattr(e, "extern_to_chrono", None):
+            # [dated extension] the argument tuple a non-chrono function returns, given its chrono meaning
+            def kx(v):
+                projs = [f"{atom(v)}" + ".2" * n + (".1" if n < e.extern_arity - 1 else "") for n in range(e.extern_arity)]
+                return k(" ".join([e.extern_to_chrono] + projs))
+            return self.cg_call(e, e.callee, None, e.args, kx, depth)
+        if kind == "method" and getattr(e, "dated_chain", None):
+            return self.dated_cg_chain(e, k, depth)
         if kind == "arraylit":
             return self.cg_args(e.elems, lambda ts: k("[" + ", ".join(ts) + "]"), depth)
         if kind == "call" and getattr(e, "fn_hole", None):
@@ -3762,6 +4064,8 @@ class Gen:
             k_arm = k if getattr(k, "is_ret", False) or not (getattr(e, "stmt_level", False) or self.has_return(e.arms)) else self.deeper(k)
 
             def ks(v):
+                if any(p.kind in ("svariant", "orpat") for p, _ in e.arms):
+                    return self.dated_match_arms(e, v, k_arm, depth, 0)  # [dated extension]
                 is_int = strip_ref(e.scrut.ty)[0] == "int"
                 out = []
                 for n, (pat, body) in enumerate(e.arms):
@@ -4033,6 +4337,65 @@ class Gen:
             return f"{ {'&': 'band', '|': 'bor', '^': 'bxor'}[op] } {atom(l)} {atom(r)}"
         fail(f"{self.fi.fname}:{fake.line}", f"operator {op}")
 
+    # [dated extension] ---------------------------------------------------------------------------
+    def dated_pat(self, pat):
+        if pat.kind == "wild":
+            return "_"
+        if pat.kind == "orpat":
+            return " | ".join(self.dated_pat(a) for a in pat.alts)
+        subs = dict(pat.fields)
+        parts = []
+        for fn in DATED_PENUM_FIELDS[(pat.enum, pat.name)]:
+            sub = subs.get(fn)
+            parts.append("_" if sub is None else lname(fn) if sub[0] == "bind" else "none" if sub[0] == "none" else f"(some {lname(sub[1])})")
+        return " ".join([f".{lname(pat.name)}"] + parts)
+
+    def dated_match_arms(self, e, v, k_arm, depth, start):
+        """the arms from `start` on, as a Lean `match` (first match, as in Rust); an arm with a guard `if c` is
+        `| pat => if c then body else (the match of the remaining arms)`"""
+        I = self.ind(depth)
+        out = [f"{I}match {v} with"]
+        for n in range(start, len(e.arms)):
+            pat, body = e.arms[n]
+            arm = self.block(body, k_arm, depth + 1)
+            g = getattr(pat, "guard", None)
+            if g is None:
+                out.append(f"{I}| {self.dated_pat(pat)} =>\n{arm}")
+                continue
+            c = self.pure(g)
+            if c is None:
+                fail(f"{self.fi.fname}:{g.line}", "a match guard that can overflow / panic is outside the translated subset")
+            if n + 1 == len(e.arms):
+                fail(f"{self.fi.fname}:{g.line}", "a guard on the last arm")
+            rest = self.dated_match_arms(e, v, self.deeper(self.deeper(k_arm)), depth + 2, n + 1)
+            out.append(f"{I}| {self.dated_pat(pat)} =>\n{I}  if {c} then\n{arm}\n{I}  else (\n{rest})")
+            break
+        return "\n".join(out)
+
+    def dated_cg_chain(self, e, k, depth):
+        """`OPT.into_iter().chain((LO..HI).rev().filter_map(|x| BODY)).next()` = `firstOrRevFindMapM OPT (fun x => BODY) LO HI`
+        (OH/Model/RustDated.lean); OPT, LO, HI are evaluated in this order, before anything is pulled"""
+        I = self.ind(depth)
+        src, rg, f = e.dated_chain
+
+        def ko(o):
+            def kl(lo):
+                def kh(hi):
+                    saved = (getattr(self, "in_closure", 0), self.ret_ty, self.closed, self.allow_mut)
+                    self.in_closure, self.closed, self.allow_mut = saved[0] + 1, self.closed + 1, None
+                    self.ret_ty = f.ret_t
+                    saved_base, self.closed_base = self.closed_base, self.closed
+                    body = f.e.b if f.e.kind == "blockexpr" else Node("block", f.e.line, stmts=[], tail=f.e)
+                    inner = self.block(body, self.RET(depth + 2), depth + 2)
+                    self.closed_base = saved_base
+                    self.in_closure, self.ret_ty, self.closed, self.allow_mut = saved
+                    v = self.fresh()
+                    return (f"{I}bnd (firstOrRevFindMapM {atom(o)} (fun {lname(f.pat)} =>\n{inner}) {int_atom(lo)} {int_atom(hi)}) fun {v} =>\n" + k(v))
+                return self.cg(rg.r, kh, depth)
+            return self.cg(rg.l, kl, depth)
+        return self.cg(src, ko, depth)
+    # ---------------------------------------------------------------------------------------------
+
     def cg_args(self, args, k, depth):
         def go(i, acc):
             if i == len(args):
@@ -4138,6 +4501,16 @@ def translate(repo, overrides):
             derefs.add(name)
 
     derives.update(enum_derives)
+    # [dated extension] which `Enum -> integer` conversions the macro of DATED_ENUM_INTO generates, with the expected body
+    DATED_ENUM_INTO_OK.clear()
+    for ename_, (rel_, macro_) in DATED_ENUM_INTO.items():
+        for ity in INT_TYPES:
+            try:
+                body_ = [x.text for x in expand_macro(toks(rel_), rel_, macro_, ity)]
+            except Fail:
+                continue
+            want_ = f"impl From < {ename_} > for {ity} {{ fn from ( val : {ename_} ) -> Self {{ val as _ }} }}".split()
+            DATED_ENUM_INTO_OK[(ename_, ity)] = any(body_[i : i + len(want_)] == want_ for i in range(len(body_)))
     fns, order = {}, []
     for target in TARGETS:
         header, tparams, self_t, aliases, assoc = None, {}, None, set(), {}
@@ -4363,7 +4736,7 @@ def translate(repo, overrides):
           "In the functions of the translator's table CHRONO_FNS chrono's `NaiveDate` / `Weekday` / `TimeDelta` are the",
           "values of the calendar model (day number, days from Monday, whole days: `Int`s) and the chrono calls are the",
           "functions `Chrono.*` of OH/Model/RustChrono.lean, which state their meaning over OH/Model/Calendar.lean.",
-          "-/", "import OH.Model.RustInt", "import OH.Model.RustChrono", "namespace OH.Generated.Arith", "open OH.Model.RustInt",
+          "-/", "import OH.Model.RustInt", "import OH.Model.RustChrono", "import OH.Model.RustDated", "namespace OH.Generated.Arith", "open OH.Model.RustInt",
           "open OH.Model.RustChrono", ""]
     L.insert(L.index("import OH.Model.RustInt") + 1, "import OH.Model.RustIter")  # [iteration extension]
     used_structs = []
@@ -4394,6 +4767,11 @@ def translate(repo, overrides):
         st = fns[key].self_t
         if st is not None and st[0] == "enum" and st[1] not in used_enums:
             used_enums.append(st[1])
+    for key in emitted:  # [dated extension] payload enums that are parameter types
+        for _, pt_ in fns[key].node.params:
+            t_ = strip_ref(fns[key].conc(pt_))
+            if isinstance(t_, tuple) and t_[0] == "penum" and t_[1] not in used_penums:
+                used_penums.append(t_[1])
     for name in used_enums:
         L.append(f"/-- `enum {name}` ({enum_src[name]}), fieldless; `{name}.discr` is the discriminant (`self as <integer type>`) -/")
         L.append(f"inductive {name} where")
@@ -4415,7 +4793,8 @@ def translate(repo, overrides):
         L.append(f"/-- `enum {name}` ({penum_src[name]}): unit and tuple variants -/")
         L.append(f"inductive {name} where")
         for v, tys in penums[name]:
-            L.append(f"  | {lname(v)}" + "".join(f" (a{k} : {lty(ft)})" for k, ft in enumerate(tys)) + "  -- " + (", ".join(show(ft) for ft in tys) or "unit"))
+            fn_ = DATED_PENUM_FIELDS.get((name, v))  # [dated extension] struct variants: arguments named after the fields
+            L.append(f"  | {lname(v)}" + "".join(f" ({lname(fn_[k]) if fn_ else 'a' + str(k)} : {lty(ft)})" for k, ft in enumerate(tys)) + "  -- " + (", ".join(show(ft) for ft in tys) or "unit"))
         L.append("  deriving DecidableEq, Repr")
         L.append("")
     for name in used_structs:
